@@ -3,6 +3,7 @@
 package lab
 
 import (
+	"encoding/hex"
 	"encoding/json"
 	"fmt"
 	"net"
@@ -92,11 +93,18 @@ func mkC10() *Scenario {
 	var p1, p2 *Peer
 	var ws *WebSeed
 	var seeder *torrent.Torrent
+	var stallers []*metaPeer
+	var mh *metaPeer
 	sc.Setup = func(w *World) {
 		json.Unmarshal(w.Arg, &arg)
 		l := arg.layout()
 		if arg.Source == "web" || arg.Source == "both" {
 			l.Webseeds = []string{"http://10.9.9.9/ws/"}
+		}
+		if arg.Source == "web2" {
+			// more web seeds than download slots
+			l.Webseeds = []string{"http://10.9.9.9/ws/", "http://10.9.9.8/ws/"}
+			w.Cfg.WebseedMaxDownloads = 1
 		}
 		g := Gen(l)
 		w.Cfg.WebseedRetryInterval = time.Minute
@@ -108,11 +116,54 @@ func mkC10() *Scenario {
 		}
 		w.OpenSession()
 		opt := &torrent.AddTorrentOptions{Stopped: true, Sequential: arg.Seq}
-		w.AddTorrent(g, opt)
+		if arg.Source == "magnet" {
+			// started from a magnet link: two peers take the metadata requests and stall (never answer, stay
+			// connected), the honest seed offers metadata and data
+			w.G = g
+			t, err := w.S.AddURI("magnet:?xt=urn:btih:"+hex.EncodeToString(g.InfoHash[:])+"&dn=from-magnet", opt)
+			if err != nil {
+				core.HarnessError("AddURI: %v", err)
+			}
+			w.Tor = t
+			w.Tors = append(w.Tors, t)
+			w.Quiesce()
+		} else {
+			w.AddTorrent(g, opt)
+		}
 		o := &StdOpts{Behaviour: map[string]*PeerBehaviour{}, IdleAdvance: 0}
 		o.Script = append(o.Script, &ScriptItem{Label: "start", Do: func(w *World) { w.CmdStart() }})
-		if arg.Source == "web" || arg.Source == "both" {
+		if arg.Source == "web" || arg.Source == "both" || arg.Source == "web2" {
 			ws = w.NewWebSeed("10.9.9.9", g)
+		}
+		if arg.Source == "web2" {
+			w.NewWebSeed("10.9.9.8", g)
+		}
+		if arg.Source == "magnet" {
+			for i, n := range []string{"s1", "s2"} {
+				sp := &metaPeer{Peer: w.NewPeer(n, fmt.Sprintf("10.0.1.%d", i+1), 5100+i)}
+				sp.Ext = true
+				stallers = append(stallers, sp)
+			}
+			mh = &metaPeer{Peer: w.NewPeer("p1", "10.0.0.1", 5001)}
+			mh.Ext = true
+			p1 = mh.Peer
+			o.Behaviour["p1"] = &PeerBehaviour{Honest: true}
+			o.Script = append(o.Script,
+				&ScriptItem{Label: "connect stallers", When: func(w *World) bool { return w.Listening() }, Do: func(w *World) {
+					for _, sp := range stallers {
+						sp.ConnectIn(w.Tor.VerifState().Port, g.InfoHash)
+					}
+				}},
+				&ScriptItem{Label: "stallers advertise metadata", When: func(w *World) bool { return stallers[0].GotHS && stallers[1].GotHS }, Do: func(w *World) {
+					for _, sp := range stallers {
+						sp.sendExtHandshake(int64(len(g.InfoBytes)))
+					}
+				}},
+				&ScriptItem{Label: "connect p1", Do: func(w *World) {
+					if err := p1.ConnectIn(w.Tor.VerifState().Port, g.InfoHash); err != nil {
+						w.Failf("lab.connect", "connect refused: %v", err)
+					}
+				}})
 		}
 		if arg.Source == "fastchoke" {
 			// an honest BEP 6 seed that keeps choking for a while: it grants every piece as allowed-fast, serves
@@ -239,6 +290,26 @@ func mkC10() *Scenario {
 			}
 		}
 		acts := StdActions(w)
+		if mh != nil && mh.Connected() {
+			// the honest seed answers the metadata extension as well
+			mh.scan()
+			g := w.G
+			if !mh.extSent && mh.GotHS {
+				acts = append(acts, Action{Label: "p1:ext-handshake", Do: func(w *World) { mh.sendExtHandshake(int64(len(g.InfoBytes))) }})
+			} else if len(mh.metaReqs) > 0 {
+				p := mh.metaReqs[0]
+				acts = append(acts, Action{Label: fmt.Sprintf("p1:metadata(%d)", p), Do: func(w *World) {
+					mh.metaReqs = mh.metaReqs[1:]
+					mh.sendData(p, int64(len(g.InfoBytes)), blockOf(g.InfoBytes, p))
+				}})
+			}
+			if st := w.Tor.VerifState(); len(acts) == 0 && st.Status != "Seeding" && st.LastError == "" {
+				// stalling peers hold the metadata slots until their requests time out
+				if n, _ := w.Vars["waited"].(int); n < 6 {
+					return []Action{{Label: "advance:25s", Do: func(w *World) { w.Vars["waited"] = n + 1; w.Advance(25 * time.Second) }}}
+				}
+			}
+		}
 		if len(acts) == 0 && ws != nil && w.Tor.VerifState().Status == "Downloading" {
 			n, _ := w.Vars["idle"].(int)
 			if n < 3 {
@@ -359,7 +430,7 @@ func bytesReader(b []byte) *strings.Reader { return strings.NewReader(string(b))
 func TestC10(t *testing.T) {
 	ServeIfWorker(t)
 	rep := core.NewReport("C10", "lab-completion", "model_checking")
-	rep.Rule = "layout lattice (16 KiB-scaled: single/multi file, empty files, leading/trailing/inner/whole-piece padding, piece length 16/32/48 KiB, odd sizes) x {rarest, sequential} x source {peer, web seed, both, real rain seeder over MSE, choking BEP 6 seed granting allowed-fast (request batches of 2)}; each under the eager fair schedule (budget 0) and, on a subset with a second misbehaving peer / failing web seed, every single deviation (budget 1)"
+	rep.Rule = "layout lattice (16 KiB-scaled: single/multi file, empty files, leading/trailing/inner/whole-piece padding, piece length 16/32/48 KiB, odd sizes) x {rarest, sequential} x source {peer, web seed, both, real rain seeder over MSE, choking BEP 6 seed granting allowed-fast (request batches of 2), two web seeds with one download slot, magnet link with two stalling metadata peers and an honest seed}; each under the eager fair schedule (budget 0) and, on a subset with a second misbehaving peer / failing web seed, every single deviation (budget 1)"
 	rep.Assumptions = []string{"bounded liveness: completion within the horizon under the fair default continuation", "the other parties' misbehaviour is limited to the deviation alphabet (corrupt, stall, choke, disconnect, web seed 500/drop)"}
 	layouts := c10Layouts(core.Thorough())
 	var runs []Run
@@ -377,6 +448,19 @@ func TestC10(t *testing.T) {
 		if i%7 == 0 {
 			a := l
 			a.Source = "rain"
+			runs = append(runs, Run{Scenario: "c10", Arg: a, Budget: 0})
+		}
+	}
+	// more web seeds than download slots; started from a magnet link with two stalling metadata peers
+	for i, l := range layouts {
+		if i%5 == 1 {
+			a := l
+			a.Source = "web2"
+			runs = append(runs, Run{Scenario: "c10", Arg: a, Budget: 0})
+		}
+		if i%5 == 2 && !l.Single {
+			a := l
+			a.Source = "magnet"
 			runs = append(runs, Run{Scenario: "c10", Arg: a, Budget: 0})
 		}
 	}
